@@ -1,6 +1,8 @@
 """C02 — RFC 9535 filter expressions select exactly the nodes the RFC makes true."""
 from __future__ import annotations
 
+import copy
+
 from .. import core, qeval, qgen
 from .. import gen as G
 
@@ -172,6 +174,24 @@ def evaluate(ctx, cases):
                 ctx.violation("the children selected must be exactly those for which RFC 9535 2.3.5/2.4 make the expression true", inp, got[:8], want[:8])
         else:
             ctx.count("nonstd")
+        # `$` inside a filter is the query argument as it is when the query is applied: apply the same compiled query
+        # to the same document object again after the document was edited in place
+        if "$" in c["text"][1:] and isinstance(doc, (dict, list)) and len(doc) > 1:
+            ctx.count("reapplied-after-edit")
+            live = copy.deepcopy(doc)
+            core.outcome(lambda: qeval.impl_matches(compiled, live))
+            if isinstance(live, dict):
+                ks = list(live)
+                new = {k: doc[ks[(i + 1) % len(ks)]] for i, k in enumerate(ks)}
+                live.clear(); live.update(copy.deepcopy(new))
+            else:
+                new = doc[1:] + doc[:1]
+                live[:] = copy.deepcopy(new)
+            second = core.outcome(lambda: qeval.canon_nodes(qeval.impl_matches(compiled, live)))
+            fresh = core.outcome(lambda: qeval.canon_nodes(qeval.impl_matches(_jp.compile(c["text"]), copy.deepcopy(new))))
+            if second.get("ok") != fresh.get("ok") or ("err" in second) != ("err" in fresh):
+                ctx.violation("at every nesting depth `$` denotes the query argument (as it is when the query is applied)", {**inp, "edited_in_place_to": new},
+                              second.get("ok", second.get("err")), fresh.get("ok", fresh.get("err")))
 
 
 def search(ctx):
